@@ -11,6 +11,14 @@ import sys
 
 from .common import cz
 
+def cl(items):
+    """Coq list as nested cons (elaborates ~4x faster than the [a; b] notation)."""
+    s = 'nil'
+    for x in reversed(list(items)):
+        s = f'(cons {x} {s})'
+    return s
+
+
 MODES = ['RTZ', 'RTN', 'RTP', 'RAZ', 'RNE']
 NAMES = ['f', 'g', 'h']
 
@@ -45,9 +53,9 @@ def ctree(t):
     if isinstance(t, int):
         return f'(TNum {cz(t)})'
     if isinstance(t, tuple):
-        return '(TTup [' + '; '.join(ctree(x) for x in t) + '])'
+        return f'(TTup {cl(ctree(x) for x in t)})'
     if isinstance(t, list):
-        return '(TList [' + '; '.join(ctree(x) for x in t) + '])'
+        return f'(TList {cl(ctree(x) for x in t)})'
     raise TypeError(f'not a tree: {t!r}')
 
 
@@ -325,9 +333,9 @@ def _ccmd(c):
     if k == 'mov':
         return f'(CMov {c[1]} {_cop(c[2])})'
     if k == 'list':
-        return f'(CList {c[1]} [' + '; '.join(_cop(o) for o in c[2]) + '])'
+        return f'(CList {c[1]} {cl(_cop(o) for o in c[2])})'
     if k == 'tuple':
-        return f'(CTuple {c[1]} [' + '; '.join(_cop(o) for o in c[2]) + '])'
+        return f'(CTuple {c[1]} {cl(_cop(o) for o in c[2])})'
     if k == 'get':
         return f'(CGet {c[1]} {c[2]} {c[3]})'
     if k == 'set':
@@ -341,26 +349,26 @@ def _ccmd(c):
 
 def fn_coq(fn):
     ctx = 'None' if fn.ctx is None else f'(Some {fn.ctx})'
-    env = '[' + '; '.join(ctree(t) for _, t in fn.caps) + ']'
-    body = '(mkBody [' + '; '.join(_ccmd(c) for c in fn.cmds) + f'] {_cop(fn.ret)})'
+    env = cl(ctree(t) for _, t in fn.caps)
+    body = f'(mkBody {cl(_ccmd(c) for c in fn.cmds)} {_cop(fn.ret)})'
     return f'(mkFn {NAMES.index(fn.name)} {ctx} {env} {body})'
 
 
 def op_coq(op):
     k = op[0]
     if k == 'call':
-        return f'(KCall {op[1]} [' + '; '.join(ctree(t) for t in op[2]) + f'] {op[3]})'
+        return f'(KCall {op[1]} {cl(ctree(t) for t in op[2])} {op[3]})'
     if k == 'callheld':
         return f'(KCallHeld {op[1]} {op[2]} {op[3]})'
     if k == 'poke':
-        return f'(KPoke {op[1]} [' + '; '.join(str(j) for j in op[2]) + f'] {op[3]} {cz(op[4])})'
+        return f'(KPoke {op[1]} {cl(str(j) for j in op[2])} {op[3]} {cz(op[4])})'
     raise KeyError(k)
 
 
 def obs_coq(ob):
     if ob[0] == 'call':
         r = 'None' if ob[1] is None else f'(Some {ctree(ob[1])})'
-        return f'(RCall {r} [' + '; '.join(str(k) for k in ob[2]) + '])'
+        return f'(RCall {r} {cl(str(k) for k in ob[2])})'
     return f'(RPoke {"true" if ob[1] else "false"})'
 
 
